@@ -44,6 +44,7 @@ def units(ctx):
     us += [contract_unit(c, world_setup=lexer.setup)
            for c in lexer.contracts() if 'p_arg' in c.short
            or 'p_args' in c.short or 'p_unary' in c.short
+           or 't_KEYWORD_STRING' in c.short
            or 'p_binary' in c.short]
     # the ply precedence rows as a function of the operator table (levels
     # loosest first; inside a level the left/prefix row, then the
